@@ -19,6 +19,7 @@ import numpy as np
 
 import core
 import gridw
+import poke
 import wire
 from mgr import Hang, _alarm
 from oracle import scripted
@@ -106,6 +107,8 @@ class AttackSession:
         self.stat_s = wire.enc(self.stat)
         self.mapping_wire = [[int(e), sorted(int(x) for x in s)] for e, s in sorted(self.actor.attack_mapping.items())]
         self.head = [self.kind, self.mapping_wire, bool(actor["stacked"])]
+        # rejected assignments on the live actor (the configuration has been read: what is in force must stay in force)
+        poke.rejected(self.actor, [desc, actor])
 
     def space(self, a):
         return self.w.agent_list[a].action_space["attack"]
